@@ -95,7 +95,7 @@ InvNames ==
    "C09_NoRollback", "C09_ExactBase", "C09_IgnoreStale", "C09_SnapPrefixCommitted",
    "C10_ConfigIsFold", "C10_OnePending", "C10_NoCampaignUnapplied", "C10_AutoLeave",
    "C11_ReadIndexFresh", "C11_ServedByRealLeader",
-   "C14_NoPanic",
+   "C14_NoPanic", "C15_Converged",
    "C16_MsgSizeBound", "C16_InflightBound", "C16_NoAppendDuringSnapshot", "C16_UncommittedBound", "C16_DropIffOver",
    "C17_PreVoteBeforeTerm", "C17_PreVoteNoStateChange", "C17_LeaseHolds", "C17_CheckQuorumStepDown",
    "C19_SameOutputs",
@@ -141,6 +141,7 @@ Holds(name) ==
     [] name = "C11_ReadIndexFresh" -> C11_ReadIndexFresh
     [] name = "C11_ServedByRealLeader" -> C11_ServedByRealLeader
     [] name = "C14_NoPanic" -> C14_NoPanic
+    [] name = "C15_Converged" -> C15_Converged
     [] name = "C16_MsgSizeBound" -> C16_MsgSizeBound
     [] name = "C16_InflightBound" -> C16_InflightBound
     [] name = "C16_NoAppendDuringSnapshot" -> C16_NoAppendDuringSnapshot
@@ -161,7 +162,10 @@ Holds(name) ==
 \* optional selection of formulas (JSON array of names in the file named by VERIF_INVS)
 InvSel == IF "VERIF_INVS" \in DOMAIN IOEnv /\ IOEnv.VERIF_INVS # ""
           THEN SeqSet(JsonDeserialize(IOEnv.VERIF_INVS)) \cap InvNames ELSE InvNames
-Failing == IF ~C03_WellFormed THEN {"C03_WellFormed"} ELSE {nm \in InvSel : ~Holds(nm)}
+\* "Stabilized" events close a fault-free suffix that was executed without step-by-step logging:
+\* each carries one node's final state; only the convergence formula (and no-panic) is meaningful there.
+Failing == IF A.name = "Stabilized" THEN {nm \in InvSel \cap {"C15_Converged", "C14_NoPanic"} : ~Holds(nm)}
+           ELSE IF ~C03_WellFormed THEN {"C03_WellFormed"} ELSE {nm \in InvSel : ~Holds(nm)}
 
 \* ---- Conform mode: the specification's own transition, applied to the observed pre-state,
 \* must yield the observed post-state (node record, disk record, return value, Ready contents).
